@@ -32,9 +32,9 @@ SIM_TIME_NOTE = "no clock in this engine; sim_time_s is 0"
 ASSUMPTIONS = [
     "float32 tolerance 2e-5 relative to the largest absolute value of the reference (HEAD <= 2e-7), "
     "1e-4 for the analytic parallax limits",
-    "the translation sign of the parallax limit is pinned to HEAD's convention (image k is moved by "
-    "+C10*lambda*k); rotation is 0 in the analytic clause because the rotated k-grid is itself code "
-    "under test",
+    "the translation sign of the parallax limit (image k is moved by +C10*lambda*k') and the sense "
+    "of the detector rotation (k' = R(+angle) k) are pinned to HEAD's convention; the gradient is "
+    "evaluated at the rotated pixel",
     "semiangle_cutoff is always a number (None raises in validate_gt at HEAD)",
 ]
 COMPONENTS_REAL = ["direct_ptychography.DirectPtychography (from_virtual_bfs, _preprocess, "
@@ -46,7 +46,8 @@ COMPONENTS_STUB = ["SimpleBatcher in direct_ptychography -> FailingBatcher subcl
 EXPECTED_PROBES = ["two_pass_kernel", "retry_after_alloc_error_pass1", "retry_after_alloc_error_pass2",
                    "submask_used", "batch_size_1", "batch_nondivisor", "alias_name_used",
                    "upsampling_gt1", "filter_used", "linearity_checked", "recombination_checked",
-                   "parallax_zero_aberration", "parallax_defocus_shift", "fractional_aperture_weight"]
+                   "parallax_zero_aberration", "parallax_defocus_shift", "fractional_aperture_weight",
+                   "parallax_with_rotation"]
 
 KERNELS = {"ssb": ["ssb", "single-sideband", "acbf", "aberration-corrected-bright-field"],
            "obf": ["obf", "optimum-bright-field"], "mf": ["mf", "matched-filter"],
@@ -221,9 +222,10 @@ def run(plan):
             if bs < n_here:
                 multi[0] = True
             kw = kwargs(call, sub)
-            # reference: a fresh instance, full batch
+            # reference: a fresh instance, full batch, addressed by the CANONICAL kernel name
             try:
-                ref = _make(plan, vbf.copy(), mask).reconstruct(max_batch_size=None, **kw)
+                ref = _make(plan, vbf.copy(), mask).reconstruct(
+                    max_batch_size=None, **dict(kw, deconvolution_kernel=kern))
                 ref_stack = ref.corrected_stack.detach().numpy().copy()
                 ref_bf = ref.corrected_bf.detach().numpy().copy()
             except Exception as e:
@@ -346,14 +348,21 @@ def run(plan):
         # ---- analytic parallax limits (rotation 0)
         if plan.get("analytic"):
             lam = _ctx["lam"]
-            D0 = _make(plan, vbf.copy(), mask, ab={}, rot=0.0)
+            rot_a = float(plan["rot"])
+            D0 = _make(plan, vbf.copy(), mask, ab={}, rot=rot_a)
             from quantem.diffractive_imaging.complex_probe import (evaluate_probe, polar_coordinates,
                                                                    spatial_frequencies)
 
-            kxa, kya = spatial_frequencies(D0.gpts, D0.sampling, rotation_angle=0.0, device="cpu")
+            kxa, kya = spatial_frequencies(D0.gpts, D0.sampling, rotation_angle=rot_a, device="cpu")
             n = plan["grid"]
             kk = np.fft.fftfreq(n, d=1.0 / (n * plan["rs"]))  # independent k-grid (1/A)
-            KX, KY = np.meshgrid(kk, kk, indexing="ij")
+            KX0, KY0 = np.meshgrid(kk, kk, indexing="ij")
+            # detector pixels expressed in the scan frame: k' = R(+rot) k  (convention pinned to HEAD,
+            # like the translation sign; the gradient must be evaluated AT the rotated pixel)
+            KX = KX0 * np.cos(rot_a) - KY0 * np.sin(rot_a)
+            KY = KX0 * np.sin(rot_a) + KY0 * np.cos(rot_a)
+            if rot_a:
+                bump(probes, "parallax_with_rotation")
             if np.abs(np.asarray(kxa) - KX).max() > 1e-5 * np.abs(KX).max():
                 res["obs"]["kgrid_convention_differs"] = 1
             # aperture weights: soft-edged disc in mrad (independent formula is not attempted: the
@@ -393,7 +402,7 @@ def run(plan):
                     want += np.fft.ifft2(np.fft.fft2(imgs[q]) * np.exp(
                         -2j * np.pi * (QX * sx[q] + QY * sy[q]))).real
                 want /= W
-                D1 = _make(plan, vbf.copy(), mask, rot=0.0)
+                D1 = _make(plan, vbf.copy(), mask, rot=rot_a)
                 got1 = D1.reconstruct(deconvolution_kernel="prlx", parallax_flip_phase=False,
                                       max_batch_size=b).corrected_bf.detach().numpy()
                 bump(probes, "parallax_defocus_shift")
